@@ -745,6 +745,36 @@ pub fn sys_name_pairs() -> Vec<Layout> {
     out.into_iter().filter(|l| rules::api_name_collision(l).is_none()).collect()
 }
 
+/// fields named like the bindings the templates use for their own parameters and locals, as array (native and
+/// arbitrary element type), range-list and scalar fields — independent of the seed (the naming layer of the random
+/// generator draws such a name for about one declaration in twenty-five)
+pub fn sys_internal_names() -> Vec<Layout> {
+    let mut out = Vec::new();
+    let names = ["index", "effective_index", "field_value", "value", "mask", "shift", "result", "one", "temp", "this", "other", "raw", "bits", "self_", "new_value", "clear_mask"];
+    for (k, nm) in names.iter().enumerate() {
+        let b = [32u32, 64, 128, 24, 16][k % 5];
+        let other = names[(k + 1) % names.len()];
+        // array of native elements, array of arbitrary-int elements with a gap, a scalar and (on wide bases) a list
+        let mut a = fld(nm, 0, if b >= 32 { 8 } else { 4 }, uty(if b >= 32 { 8 } else { 4 }), Access::RW);
+        a.array = Some(ArrayDecl { count: 2, stride: None, colon: false });
+        let top = if b >= 32 { 16 } else { 8 };
+        let mut fields = vec![a];
+        if b >= 24 {
+            let mut a2 = fld(other, top, 3, uty(3), Access::RW);
+            a2.array = Some(ArrayDecl { count: 2, stride: Some(4), colon: false });
+            fields.push(a2);
+        }
+        out.push(lay(b, fields));
+        // the same names on scalar fields and on a signed / list field
+        let mut fields = vec![fld(nm, 0, 4, uty(4), Access::RW), fld(other, 4, 1, FieldTy::Bool, Access::RW)];
+        if b >= 32 {
+            fields.push(Field { name: format!("{}2", nm), kw_bit: false, list: true, ranges: vec![Rng::new(8, 11), Rng::new(16, 19)], array: None, ty: FieldTy::INat { bits: 8 }, access: Access::RW, arg_order: 0, opt_path: 0, huge: None, zero_pad: false });
+        }
+        out.push(lay(b, fields));
+    }
+    out.into_iter().filter(|l| rules::api_name_collision(l).is_none()).collect()
+}
+
 fn random(p: &Profile, seed: u64, stream: u64, n: usize) -> Vec<Layout> {
     sample_choices(seed, stream, n, 320).iter().map(|w| build_layout(p, w)).collect()
 }
@@ -788,6 +818,7 @@ pub fn corpus(prop: &str, tier: Tier, seed: u64) -> Vec<(usize, Layout)> {
             v.extend(sys_long_lists());
             v.extend(sys_deep_nesting(false));
             v.extend(sys_name_pairs());
+            v.extend(sys_internal_names());
         }
         "C03" => {
             v.extend(sys_arrays(tier));
@@ -806,6 +837,7 @@ pub fn corpus(prop: &str, tier: Tier, seed: u64) -> Vec<(usize, Layout)> {
             v.extend(sys_lists(Tier::Quick).into_iter().filter(|l| l.fields.iter().any(|f| f.is_array())));
             v.extend(sys_long_lists().into_iter().filter(|l| l.fields.iter().any(|f| f.is_array())));
             v.extend(sys_deep_nesting(false).into_iter().filter(|l| l.fields.iter().any(|f| f.is_array())));
+            v.extend(sys_internal_names().into_iter().filter(|l| l.fields.iter().any(|f| f.is_array())));
         }
         "C04" => {
             v.extend(sys_lists(tier));
@@ -1019,7 +1051,7 @@ pub fn corpus(prop: &str, tier: Tier, seed: u64) -> Vec<(usize, Layout)> {
             }
             // long builder chains (up to 128 steps), long lists and deeply nested arguments; a default is added
             // where the writable fields do not cover the base
-            for (k, mut l) in sys_many_fields(Access::RW).into_iter().chain(sys_long_lists()).chain(sys_deep_nesting(false)).enumerate() {
+            for (k, mut l) in sys_many_fields(Access::RW).into_iter().chain(sys_long_lists()).chain(sys_deep_nesting(false)).chain(sys_internal_names()).enumerate() {
                 if k % 3 == 1 {
                     for (j, f) in l.fields.iter_mut().enumerate() {
                         if j % 3 == 2 {
